@@ -144,3 +144,42 @@ def make_curve(m, b):
         return np.sign(x) * np.exp(b) * (np.abs(x) ** m)
     sc.params = (m, b)
     return sc
+
+
+def derive(rng, s, keep_channels=False, min_events=0):
+    """A sample as it looks in the middle of an analysis: the result of one or two earlier public operations that keep
+    the meaning of every remaining event and column (event stride / mask / permutation, channel permutation or subset,
+    copy, view, pickle round trip).  -> (sample, tag).  Oracles work from the object they are handed, so a derived
+    sample is judged exactly like a fresh one; what it adds is state left behind by the earlier operations (memory
+    layout, metadata carried over, cached attributes)."""
+    import copy
+    import pickle
+    tags = []
+    for _ in range(int(rng.integers(1, 3))):
+        N, D = s.shape
+        op = int(rng.integers(7))
+        if op == 0 and N > min_events + 2:
+            s = s[::2] if (N + 1) // 2 >= min_events else s
+            tags.append('stride')
+        elif op == 1 and N > min_events:
+            m = rng.random(N) < 0.8
+            if int(m.sum()) >= max(min_events, 1):
+                s = s[m]
+                tags.append('mask')
+        elif op == 2 and N >= 2:
+            s = s[rng.permutation(N)]
+            tags.append('permuted-events')
+        elif op == 3 and D >= 2 and not keep_channels:
+            k = int(rng.integers(2, D + 1))
+            s = s[:, [int(x) for x in rng.permutation(D)[:k]]]
+            tags.append('channels-rearranged')
+        elif op == 4:
+            s = s.copy() if rng.random() < 0.5 else copy.deepcopy(s)
+            tags.append('copy')
+        elif op == 5:
+            s = pickle.loads(pickle.dumps(s, protocol=int(rng.integers(2, 6))))
+            tags.append('pickle')
+        elif op == 6:
+            s = s.view()
+            tags.append('view')
+    return s, '+'.join(tags) or 'fresh'
